@@ -30,7 +30,7 @@ type effects struct {
 	Escapes      map[string][]site // address of a field/global handed to a call or stored
 	Nondet       []site
 	Extern       map[string][]site // calls to functions outside chess-3: "pkg.Func"
-	Unresolved   []site           // dynamic calls without any resolved target
+	Unresolved   []site            // dynamic calls without any resolved target
 }
 
 func newEffects() *effects {
